@@ -225,6 +225,22 @@ def project(spec, tag, v):
     return f(v) if f else None
 
 
+def _aggregate_polls(obs):
+    out, started, last = {}, [], '-'
+    ks = sorted((int(t[1:]) for t in obs if re.match(r'^e[0-9]+$', t)))
+    for k in ks:
+        toks = obs['e%d' % k].split()
+        if toks and toks[0] != '-' and re.match(r'^[0-9.]+$', toks[0]):
+            started += toks[0].split('.')
+        if toks:
+            last = toks[-1]
+    for t, v in obs.items():
+        if not re.match(r'^e[0-9]+$', t):
+            out[t] = v
+    out['e0'] = '%s %s' % ('.'.join(started) if started else '-', last)
+    return out
+
+
 def evaluate_bundle(prop, spec, bdir, meta):
     import vlib
     res = dict(mismatches=[], monitor_failures=[], evaluations=0, distinct_nontrivial=0, compared_cases=0,
@@ -262,8 +278,13 @@ def evaluate_bundle(prop, spec, bdir, meta):
             res['mismatches'].append(dict(tag='(case)', impl='present', model='missing', case_line=c.line))
         else:
             res['compared_cases'] += 1
-            for t in (sorted(set(c.obs) | set(mo)) if not c.family.startswith('tokio') else []):
-                a, b = c.obs.get(t), mo.get(t)
+            cobs = c.obs
+            if c.family.startswith('intm'):
+                # single-poll schedules: which poll of a self-woken task starts a function is not part of
+                # any property; compare what starts over the whole run and how the run ends
+                cobs, mo = _aggregate_polls(c.obs), _aggregate_polls(mo)
+            for t in (sorted(set(cobs) | set(mo)) if not c.family.startswith('tokio') else []):
+                a, b = cobs.get(t), mo.get(t)
                 if t == 'P' and a is None:
                     continue   # hooks feature off
                 pa = project(spec, t, a) if a is not None else None
